@@ -650,6 +650,11 @@ impl Stdfs {
                     )?;
                 }
 
+                // Link exclusion as for write_all: a file is not written through an existing link
+                if Stdfs::is_symlink(&dst_path) {
+                    return Err(PathError::is_not_file(dst_path).into());
+                }
+
                 // Copy over the file/link, an existing destination keeps its own mode
                 let dst_mode = fs::symlink_metadata(&dst_path).ok().map(|x| x.permissions());
                 fs::copy(src.path(), &dst_path)?;
